@@ -186,6 +186,11 @@ class Ctx:
         if pf == 'unsat':
             return
         scn_extra = None
+        if st.ghost.get('lowers'):
+            model_vars = dict(model_vars or {})
+            for i_, (x_, r_) in enumerate(st.ghost['lowers']):
+                model_vars['lower!%d!src' % i_] = x_
+                model_vars['lower!%d!dst' % i_] = r_
         if self.scn is not None and (kind != 'witness' or expect is not None):
             mvx = dict(self.scn_exprs)
             if self.scn_dyn is not None:
